@@ -181,8 +181,9 @@ class _Elim(object):
             k2 = self.seq(rest, k)
             bf, of = _falls(s.body), _falls(s.orelse)
             self._dup_ok(k2, int(bf) + int(of))
+            # (a continuation that goes to both arms is copied: one statement object must not sit at two places of the tree)
             new = ast.If(test=s.test, body=_nonempty(self.seq(s.body, k2 if bf else []), s),
-                         orelse=self.seq(s.orelse, k2 if of else []))
+                         orelse=self.seq(s.orelse, (copy.deepcopy(k2) if bf else k2) if of else []))
             return [ast.copy_location(new, s)]
         if isinstance(s, ast.Try):
             if _contains_return(s.finalbody):
@@ -203,7 +204,7 @@ class _Elim(object):
             self._dup_ok(k2, int(b_falls) + sum(1 for f in hf if f))
             new_body = self.seq(s.body, [])
             new_orelse = self.seq(s.orelse, k2 if b_falls else [])
-            new_handlers = [ast.copy_location(ast.ExceptHandler(type=h.type, name=h.name, body=_nonempty(self.seq(h.body, k2 if f else []), h)), h)
+            new_handlers = [ast.copy_location(ast.ExceptHandler(type=h.type, name=h.name, body=_nonempty(self.seq(h.body, copy.deepcopy(k2) if f else []), h)), h)
                             for h, f in zip(s.handlers, hf)]
             new = ast.Try(body=_nonempty(new_body, s), handlers=new_handlers, orelse=new_orelse, finalbody=s.finalbody)
             return [ast.copy_location(new, s)]
